@@ -26,15 +26,23 @@ __CPROVER_ensures(__CPROVER_return_value == (VP_COMPAT(want[0], want[1], have[0]
 /* ---------------- version_parse ---------------- */
 char w_str[VP_N];
 int w_null;
+/* the same bytes, one integer ghost each: the runner hands only integer-valued witnesses to the
+ * native replay drivers (native/c14_replay_common.h rebuilds the string from W_C0..W_C15) */
+int w_c0, w_c1, w_c2, w_c3, w_c4, w_c5, w_c6, w_c7, w_c8, w_c9, w_c10, w_c11, w_c12, w_c13, w_c14, w_c15;
+/* (bound to the ghost copy w_str / w_req, not to the string again: no additional reads of the string) */
+#define VP_BIND_INT(s) (w_c0 == (s)[0] && w_c1 == (s)[1] && w_c2 == (s)[2] && w_c3 == (s)[3] && w_c4 == (s)[4] && w_c5 == (s)[5] && \
+	w_c6 == (s)[6] && w_c7 == (s)[7] && w_c8 == (s)[8] && w_c9 == (s)[9] && w_c10 == (s)[10] && w_c11 == (s)[11])
 WITNESS(version_parse);
 #define VP_BIND(version) (w_null == ((version) == NULL) && ((version) == NULL || ( \
 	w_str[0] == (version)[0] && w_str[1] == (version)[1] && w_str[2] == (version)[2] && w_str[3] == (version)[3] && \
 	w_str[4] == (version)[4] && w_str[5] == (version)[5] && w_str[6] == (version)[6] && w_str[7] == (version)[7] && \
-	w_str[8] == (version)[8] && w_str[9] == (version)[9] && w_str[10] == (version)[10] && w_str[11] == (version)[11] VP_BIND_HI(version))))
+	w_str[8] == (version)[8] && w_str[9] == (version)[9] && w_str[10] == (version)[10] && w_str[11] == (version)[11] && \
+	VP_BIND_INT(w_str) VP_BIND_HI(version))))
 #if VP_N == 12
 #define VP_BIND_HI(version)
 #elif VP_N == 16
-#define VP_BIND_HI(version) && w_str[12] == (version)[12] && w_str[13] == (version)[13] && w_str[14] == (version)[14] && w_str[15] == (version)[15]
+#define VP_BIND_HI(version) && w_str[12] == (version)[12] && w_str[13] == (version)[13] && w_str[14] == (version)[14] && w_str[15] == (version)[15] && \
+	w_c12 == w_str[12] && w_c13 == w_str[13] && w_c14 == w_str[14] && w_c15 == w_str[15]
 #else
 #error "VP_N must be 12 or 16"
 #endif
